@@ -403,7 +403,7 @@ func (r *DocumentHandler) ResolveDocument(shortOrLongFormDID string,
 	}
 
 	// resolve document from the blockchain
-	doc, err := r.resolveRequestWithID(shortFormDID, uniquePortion, pv, opts...)
+	doc, err := r.resolveRequestWithID(ns, shortFormDID, uniquePortion, pv, opts...)
 	if err == nil {
 		return doc, nil
 	}
@@ -439,7 +439,7 @@ func (r *DocumentHandler) getNamespace(shortOrLongFormDID string) (string, error
 	return "", fmt.Errorf("did must start with configured namespace[%s] or aliases%v", r.namespace, r.aliases)
 }
 
-func (r *DocumentHandler) resolveRequestWithID(shortFormDid, uniquePortion string, pv protocol.Version,
+func (r *DocumentHandler) resolveRequestWithID(ns, shortFormDid, uniquePortion string, pv protocol.Version,
 	opts ...document.ResolutionOption) (*document.ResolutionResult, error) {
 	internalResult, err := r.processor.Resolve(uniquePortion, opts...)
 	if err != nil {
@@ -451,12 +451,13 @@ func (r *DocumentHandler) resolveRequestWithID(shortFormDid, uniquePortion strin
 	var ti protocol.TransformationInfo
 
 	if len(internalResult.PublishedOperations) == 0 {
-		hint, err := GetHint(shortFormDid, r.namespace, uniquePortion)
+		// the DID starts with the namespace it was matched by (which may be an alias): the hint is what follows that one
+		hint, err := GetHint(shortFormDid, ns, uniquePortion)
 		if err != nil {
 			return nil, err
 		}
 
-		ti = GetTransformationInfoForUnpublished(r.namespace, r.domain, hint, uniquePortion, "")
+		ti = GetTransformationInfoForUnpublished(ns, r.domain, hint, uniquePortion, "")
 	} else {
 		ti = GetTransformationInfoForPublished(r.namespace, shortFormDid, uniquePortion, internalResult)
 	}
